@@ -49,7 +49,8 @@ def gen_cases(tier, seed):
                 for r in range(2 * k):
                     cases.append(dict(kind="head", head=head, B=B, A=A,
                                       extreme="none" if r % 2 == 0 else
-                                      ["pos", "neg", "mixed"][int(rng.integers(3))],
+                                      ["pos", "neg", "mixed", "wide"][
+                                          (A + (B or 0)) % 4],
                                       shared=bool(rng.integers(2)),
                                       seed=int(rng.integers(1 << 30)), cost=2))
     for i in range(6 * k):
@@ -93,7 +94,14 @@ def build_head(case, rng):
     if case["head"] == "softmax":
         n = max(A, 2)
         net = MLP(d, n, [6], "tanh", nnx.Rngs(seed))
-        if ext != "none":
+        if ext == "wide":
+            # logits whose magnitude differs by hundreds between the rows of a
+            # batch (large output weights on bounded features)
+            import jax.numpy as jnp
+            net.output_layer.kernel.value = net.output_layer.kernel.value * 300.0
+            net.output_layer.bias.value = jnp.asarray(
+                rng.normal(size=n) * 50, dtype=jnp.float32)
+        elif ext != "none":
             big = float(rng.choice([1e4, 3e5]))  # large common offset
             b = {"pos": np.full(n, big), "neg": np.full(n, -big),
                  "mixed": np.where(np.arange(n) % 2 == 0, 1e4, -1e4)}[ext]
@@ -102,6 +110,8 @@ def build_head(case, rng):
             set_bias(net.output_layer, b)
         return ph.SoftmaxPolicy(net), n
     net = GaussianMLP(case["shared"], d, A, [6], "tanh", nnx.Rngs(seed))
+    if ext == "wide":
+        ext = "mixed"
     if ext != "none":
         lv = {"pos": np.full(A, 100.0), "neg": np.full(A, -100.0),
               "mixed": np.where(np.arange(A) % 2 == 0, 100.0, -100.0)}[ext]
